@@ -16,6 +16,7 @@ func factsExtra(ctx *Ctx, b *strings.Builder) {
 	txnShape(ctx, b)
 	lockShape(ctx, b)
 	lockFacts(ctx, b)
+	poolMutexSpans(ctx, b)
 	factsMore(ctx, b)
 }
 
